@@ -184,21 +184,21 @@ def check_unordered(case) -> Result:
     ct = Counter(_residue_key(aa, ms) for aa, ms in model.residues_with_mods(model.expand_static(target)))
     cq = Counter(_residue_key(aa, ms) for aa, ms in model.residues_with_mods(model.expand_static(query)))
     exp = not (cq - ct)
-    # the property does not say whether [a][b] and [b][a] on one residue are the same modified residue: assert only where the
-    # order-sensitive and the order-insensitive reading agree
+    # a modified residue is a residue with the MULTISET of its modifications (annotation equality ignores the order in which the
+    # modifications of one position are written - C20), so [a][b] and [b][a] on one residue are the same modified residue
     def okey(aa, ms):
         return aa + '|' + '|'.join(repr((model.typed(t), m)) for t, m in ms)
     ct_o = Counter(okey(aa, ms) for aa, ms in model.residues_with_mods(model.expand_static(target)))
     cq_o = Counter(okey(aa, ms) for aa, ms in model.residues_with_mods(model.expand_static(query)))
-    if (not (cq_o - ct_o)) != exp:
-        r.classes = ['modification-order-decides (not asserted)']
-        return r
+    order_decides = (not (cq_o - ct_o)) != exp
     ts, qs = model.write_pep(target), model.write_pep(query)
     got = pt.is_subsequence(qs, ts, order=False)
     r.nontrivial = bool(target['internal'] or target['static']) and len(query['seq']) >= 2
-    r.classes = ['contained' if exp else 'not-contained'] + (['static'] if target['static'] or query['static'] else [])
+    r.classes = ['contained' if exp else 'not-contained'] + (['static'] if target['static'] or query['static'] else []) + \
+        (['modification-order-differs'] if order_decides else [])
     if bool(got) != exp:
-        r.fail('order-insensitive containment is multiset inclusion of modified residues', 'C16/is_subsequence/unordered-mod-wrong',
+        r.fail('order-insensitive containment is multiset inclusion of modified residues',
+               'C16/is_subsequence/unordered-mod-wrong' + ('/modification-order-sensitive' if order_decides else ''),
                target=ts, query=qs, expected=exp, got=got)
     return r
 
@@ -257,7 +257,7 @@ def mod_strategy():
 
 def unordered_strategy():
     pm = gen.pep_model(alphabet='AGKM', min_len=1, max_len=10, kinds=('internal', 'static'),
-                       mod_strategy=_simple_mod(), mod_list=st.lists(_simple_mod(), min_size=1, max_size=1),
+                       mod_strategy=_simple_mod(), mod_list=st.lists(_simple_mod(), min_size=1, max_size=2),
                        allow_empty=False, rule_targets='AGKM')
 
     @st.composite
@@ -272,7 +272,7 @@ def unordered_strategy():
             idx = draw(st.lists(st.integers(0, n - 1), min_size=1, max_size=n, unique=True))
             d = {a: b for a, b in full['internal']}
             q = model.empty_pep(''.join(full['seq'][i] for i in idx))
-            q['internal'] = [[k, d[i]] for k, i in enumerate(idx) if i in d]
+            q['internal'] = [[k, list(draw(st.permutations(d[i])))] for k, i in enumerate(idx) if i in d]
             if draw(st.integers(0, 3)) == 1 and q['internal']:
                 q['internal'].pop()
         else:
